@@ -326,3 +326,50 @@ fn two_ply_apply_undo_board_a() {
     kani::assume(i < 64);
     assert!(b.get(sq(i)) == board_a().get(sq(i)));
 }
+
+// ---------------------------------------------------------------------------------------------
+// C05 (bounded): after two plies (one of six fixed first moves, then a symbolic reply) the key equals
+// the key of the same position set up DIRECTLY through put / lose_castle_rights /
+// push_en_passant_target on an empty board -- i.e. the key is a function of (placement, rights,
+// en-passant target), not of the path.
+#[kani::proof]
+#[kani::unwind(70)]
+fn key_is_function_of_position_two_ply() {
+    let mut b = board_a();
+    let k: u8 = kani::any();
+    kani::assume(k < 6);
+    let (f1, t1, c1) = first_ply(k);
+    assert!(StandardChessMove::new(sq(f1), sq(t1), c1).apply(&mut b).is_ok());
+    let f: u8 = kani::any();
+    let t: u8 = kani::any();
+    kani::assume(f < 64 && t < 64 && f != t);
+    let src = b.get(sq(f));
+    let dst = b.get(sq(t));
+    kani::assume(src.is_some());
+    let (p, c) = src.unwrap();
+    kani::assume(c == Color::Black);
+    let captures = match dst {
+        None => None,
+        Some((q, c2)) => { kani::assume(c2 != c && q != Piece::King); Some(Capture(q)) }
+    };
+    if p == Piece::Pawn {
+        let d = t as i16 - f as i16;
+        let ok = (d == -8 && dst.is_none()) || (d == -16 && f >= 48 && f < 56 && dst.is_none() && b.get(sq(f - 8)).is_none())
+            || ((d == -9 && f % 8 != 0 || d == -7 && f % 8 != 7) && dst.is_some());
+        kani::assume(ok && t >= 8 && t < 56);
+    }
+    assert!(StandardChessMove::new(sq(f), sq(t), captures).apply(&mut b).is_ok());
+    // the same position, set up directly
+    let mut d = Board::new();
+    let mut i: u8 = 0;
+    while i < 64 {
+        if let Some((pp, cc)) = b.get(sq(i)) {
+            d.put(sq(i), pp, cc).unwrap();
+        }
+        i += 1;
+    }
+    d.lose_castle_rights(0b1111 & !b.peek_castle_rights());
+    d.push_en_passant_target(b.peek_en_passant_target());
+    assert!(d.peek_castle_rights() == b.peek_castle_rights());
+    assert!(d.current_position_hash() == b.current_position_hash());
+}
